@@ -486,7 +486,7 @@ def shrink(case):
 def plan(tier):
   if tier == 'quick':
     return {'batches': 48, 'timeout': 1500, 'a_plans': 300, 'b_programs': 4, 'p_plans': 600, 'wall_budget_s': 300}
-  return {'batches': 480, 'timeout': 2400, 'a_plans': 4000, 'b_programs': 60, 'p_plans': 6000, 'wall_budget_s': 1500}
+  return {'batches': 480, 'timeout': 3000, 'a_plans': 4000, 'b_programs': 60, 'p_plans': 6000, 'wall_budget_s': 1500}
 
 
 def trivial_a(case, obs):
